@@ -325,6 +325,10 @@ def check_c12(ctx):
     for i, d in enumerate(rnd):
         add(d["export"], "swagger", "yaml" if i % 2 else "json")
         add(d["export"], "openapi3", "json" if i % 2 else "yaml")
+    # a sample also goes through the command (`sysl export`), to an output path that already holds an earlier, longer export
+    sysl = core.build_sysl(ctx)
+    for s in scn[::(9 if quick else 3)]:
+        s["cli"] = sysl
     # beyond the listed properties: the Protocol Buffers exporter (`sysl export -o x.proto`), read generically
     for i, d in enumerate(field):
         if i % 2 == 0 and all(re.match(r"^[A-Za-z_][A-Za-z0-9_]*$", f["name"]) and f["name"] not in ("int", "type")
